@@ -410,6 +410,8 @@ def gen_project(rng, k=None):
             t = nodes[fid]
             if A.is_leaf(t) and t.get("effort") and pick(rng, 0.5):
                 sid = rng.choice(["s2", "s3"] if p["scenarios"][0]["children"][0].get("children") else ["s2"])
+                if pick(rng, 0.25):
+                    sid = "plan"        # an override addressed to the FIRST scenario (index 0): nested scenarios inherit it
                 t.setdefault("sc", {})[sid] = {"effort": gen_effort(rng, G, k)}
         # scenario-specific dates, also on containers that have no plain date of their own (their children inherit them
         # in that scenario only)
